@@ -15,7 +15,10 @@ use std::sync::atomic::{AtomicBool, Ordering};
 use std::sync::Mutex;
 use std::time::Instant;
 
-pub const VERIF_DIR: &str = "/verif";
+/// root of the verification tree (evidence/, replays/, KNOWN_FINDINGS.txt); overridable for scratch copies
+pub fn verif_dir() -> PathBuf {
+    PathBuf::from(std::env::var("VERIF_HOME").unwrap_or_else(|_| "/verif".to_string()))
+}
 
 #[derive(Clone, Copy, PartialEq, Eq, Debug)]
 pub enum Tier {
@@ -125,7 +128,7 @@ impl Known {
 /// `known: property=C04 signature=<sig> replay=<file under replays/known> <free text>`
 /// `fixed: property=C09 <commit> <what failed>`  (suppresses nothing)
 pub fn load_known(property: &str) -> Vec<Known> {
-    let p = Path::new(VERIF_DIR).join("KNOWN_FINDINGS.txt");
+    let p = verif_dir().join("KNOWN_FINDINGS.txt");
     let Ok(txt) = std::fs::read_to_string(p) else { return vec![] };
     let mut out = vec![];
     for line in txt.lines() {
@@ -512,7 +515,7 @@ pub struct RunOpts {
 }
 
 fn replay_dir(kind: &str) -> PathBuf {
-    Path::new(VERIF_DIR).join("replays").join(kind)
+    verif_dir().join("replays").join(kind)
 }
 
 #[derive(serde::Serialize, serde::Deserialize, Debug)]
@@ -729,7 +732,7 @@ pub fn run_property(prop: &Property, opts: &RunOpts) -> i32 {
             "wall_s": wall,
             "violations": violations.len(),
         });
-        let dir = Path::new(VERIF_DIR).join("evidence");
+        let dir = verif_dir().join("evidence");
         let _ = std::fs::create_dir_all(&dir);
         let _ = std::fs::write(dir.join(format!("{}.json", prop.id)), serde_json::to_string_pretty(&ev).unwrap());
     }
